@@ -29,6 +29,7 @@ CONSTANTS BeadSeq,    \* sequence of the bead ids that may be added (not 1..n)
           Fresh,      \* id of the extra bead of an altered copy
           RefV, RefE, RefAttrSeq,   \* persistent reference structure (ids sequence, edge set, palette indices)
           Inits,      \* set of initial structures [v |-> set, e |-> set]; built by a canonical call prefix
+          WithSub,    \* include the getSubStructure calls in the alphabet
           Depth, Emit
 VARIABLES beads, conns,                      \* abstract state
           gUp, sidUp, singleUp,              \* cache flags
@@ -163,7 +164,7 @@ Next == /\ k < Depth /\ k' = k + 1
            \/ \E x, y \in BeadIds : x < y /\ ConnectBeads(y, x)
            \/ ConnectBeads(BeadSeq[1], BeadSeq[1])
            \/ IsSingle \/ Equiv("copy") \/ Equiv("alt") \/ Equiv("ref") \/ GetGraph \/ Break
-           \/ Sub("all") \/ Sub("drop") \/ Sub("bad")
+           \/ (WithSub /\ (Sub("all") \/ Sub("drop") \/ Sub("bad")))
 Spec == Init /\ [][Next]_vars
 
 \* ---- properties ------------------------------------------------------------------------------------
